@@ -8,8 +8,9 @@
 (*                      that the reference cannot resolve among members left out)            *)
 (*   tp  /ZQ/<sel>      through the handler list WITHOUT the real-file-only handlers         *)
 (* after alpha removed the selector prefix and timestamps, plus what the audit hook saw      *)
-(* while the archive request ran (process spawns, imports/exec of files, opens of relative   *)
-(* paths = a handler looking for a real file at the member's name).                          *)
+(* while the archive request ran (process spawns, imports/exec of files, opens of the        *)
+(* relative path of a mailbox/script/PYG member = a handler looking for a real file at the   *)
+(* member's name; other relative opens are reported at design level only).                   *)
 (*                                                                                          *)
 (* Property level (VIOLATION):                                                              *)
 (*   LinksStayInside  no archive answer contains bytes of a file outside the member list     *)
@@ -54,6 +55,7 @@ PredSt(k) == IF k = "none" THEN "notfound" ELSE "ok"
 DriftReq(e) ==
     /\ (IF InvolvesRealOnly(Ms, e.sel, e.args) \/ PredSt(e.pk) = e.z.st THEN TRUE
         ELSE RecordDrift(tid, l, "model predicted " \o e.pk))
+    /\ (IF e.relother = 0 THEN TRUE ELSE RecordDrift(tid, l, "relative path opened (is_zipfile probe of a member named like an archive)"))
     /\ (IF e.z.st = "notfound" /\ e.tf.st = "notfound" /\ e.z.msg # e.tf.msg
         THEN RecordDrift(tid, l, "not-found message text") ELSE TRUE)
 
